@@ -306,7 +306,7 @@ def xh_part(run: Run):
     from vf.harness import c02_harness
 
     jobs = [{"fn": "plumbing", "globals": {}, "timeout": 300, "bound": "4 entry points x 4 behaviours of the AHB parse x 4 of the condition parse (tree, UnexpectedEOF, UnexpectedCharacters, TypeError)"}]
-    jobs.append({"fn": "history_pairs", "globals": {}, "timeout": 400, "bound": "5 pairs (well-formed, malformed by whitespace inside a token) validated in both orders in one process"})
+    jobs.append({"fn": "history_pairs", "globals": {}, "timeout": 400, "bound": "8 pairs (well-formed, malformed by whitespace inside a token or by the letter case of a case-sensitive token) validated in both orders in one process, real caches"})
     n = len(c02_harness.string_cases())
     for lo in range(0, n, 10):
         jobs.append({"fn": "strings", "globals": {"LO": lo, "HI": min(n, lo + 10)}, "timeout": 400, "bound": "assembled strings of this partition x 4 entry points"})
